@@ -174,6 +174,31 @@ Section Proofs.
               end).
   Qed.
 
+
+  (* what side [w] still has to yield from position c on, with source indices *)
+  Definition expk (w : bool) (c : nat) : list (nat * nat) :=
+    expected_from w (skipn c xs) (skipn c cs) c.
+
+  Lemma skipn_nth {A} (l : list A) k x : nth_error l k = Some x -> skipn k l = x :: skipn (S k) l.
+  Proof.
+    revert k; induction l as [|y l IH]; intros [|k] H; simpl in *; try discriminate.
+    - injection H as ->; reflexivity.
+    - apply IH, H.
+  Qed.
+
+  Lemma expk_step w c x v :
+    nth_error xs c = Some x -> nth_error cs c = Some v ->
+    expk w c = if Bool.eqb v w then (c, x) :: expk w (S c) else expk w (S c).
+  Proof.
+    intros Hx Hv. unfold expk. rewrite (skipn_nth _ _ _ Hx), (skipn_nth _ _ _ Hv). reflexivity.
+  Qed.
+
+  Lemma expk_nil_data w c : length xs <= c -> expk w c = [].
+  Proof. intros H. unfold expk. rewrite (skipn_all2 xs H). reflexivity. Qed.
+
+  Lemma expk_nil_cond w c : length cs <= c -> expk w c = [].
+  Proof. intros H. unfold expk. rewrite (skipn_all2 cs H). destruct (skipn c xs); reflexivity. Qed.
+
   Definition rest_ok (rest : list nat) sd s := length rest = length xs - get_d sd s.
 
   Lemma cnext_spec rest : forall sd s,
@@ -183,10 +208,13 @@ Section Proofs.
         Inv s' /\ get_out sd s' = get_out sd s ++ [x] /\
         get_out (other sd) s' = get_out (other sd) s /\
         n s <= n s' /\ n s' <= Nat.max (n s) (get_d sd s') /\ b s <= b s' /\
-        get_d sd s < get_d sd s'
+        get_d sd s < get_d sd s' /\
+        expk (want sd) (get_c sd s) = (get_d sd s' - 1, x) :: expk (want sd) (get_c sd s') /\
+        get_c (other sd) s' = get_c (other sd) s
     | (None, s') =>
         Inv s' /\ out1 s' = out1 s /\ out2 s' = out2 s /\
-        Nat.min (length xs) (length cs) <= get_c sd s' /\ n s <= n s' /\ b s <= b s'
+        Nat.min (length xs) (length cs) <= get_c sd s' /\ n s <= n s' /\ b s <= b s' /\
+        expk (want sd) (get_c sd s) = [] /\ get_c (other sd) s' = get_c (other sd) s
     end.
   Proof.
     induction rest as [|r0 rest IH]; intros sd s HI Hr; unfold rest_ok in Hr; cbn [Iter.cnext].
@@ -199,6 +227,9 @@ Section Proofs.
         split; [|repeat split; try lia; try congruence].
         * constructor; rewrite ?En, ?Epl, ?Ea, ?Eb, ?Eel, ?Ed1, ?Ed2, ?Ec1, ?Ec2, ?Eo1, ?Eo2; auto.
         * destruct sd; simpl in *; lia.
+        * destruct sd; simpl in *; [destruct Hs1b|destruct Hs2b];
+            solve [apply expk_nil_data; lia | apply expk_nil_cond; lia].
+        * destruct sd; simpl; congruence.
     - pose proof (pull_ti_spec sd s HI) as Hti. cbv zeta in Hti.
       destruct (pull_ti sd s) as [[x|] s1].
       + destruct Hti as (Hx & Hd & Hdo & Hpl & Hn1 & Hnn & Hnmax & Ha1 & Han1 & Eb & Eel & Ec1 & Ec2 & Eo1 & Eo2 & Ecs).
@@ -250,6 +281,11 @@ Section Proofs.
              ++ destruct sd; simpl in *; lia.
              ++ destruct sd; simpl; lia.
              ++ destruct sd; simpl in *; lia.
+             ++ rewrite Hcd. rewrite (expk_step (want sd) _ _ _ Hx Hv), Ev.
+                assert (Ed' : get_d sd (add_out sd s2 x) = S (get_d sd s)) by (destruct sd; simpl in *; congruence).
+                assert (Ec' : get_c sd (add_out sd s2 x) = S (get_d sd s)) by (destruct sd; simpl in *; congruence).
+                rewrite Ed', Ec'. simpl. rewrite Nat.sub_0_r. reflexivity.
+             ++ destruct sd; simpl in *; congruence.
           -- (* skipped: loop *)
              assert (HInv2 : Inv s2).
              { apply HI2; try reflexivity.
@@ -259,8 +295,10 @@ Section Proofs.
              { unfold rest_ok. simpl in Hr. destruct sd; simpl in *; lia. }
              specialize (IH sd s2 HInv2 Hr2).
              destruct (cnext rest sd s2) as [[y|] s'].
-             ++ destruct IH as (J1 & J2 & J3 & J4 & J5 & J6 & J7).
+             ++ destruct IH as (J1 & J2 & J3 & J4 & J5 & J6 & J7 & J8 & J9).
                 assert (Hd2 : get_d sd s2 = S (get_d sd s)) by (destruct sd; simpl in *; congruence).
+                assert (Hc2 : get_c sd s2 = S (get_d sd s)) by (destruct sd; simpl in *; congruence).
+                assert (Hoc2 : get_c (other sd) s2 = get_c (other sd) s) by (destruct sd; simpl in *; congruence).
                 split; [exact J1|]. repeat split.
                 ** rewrite J2. destruct sd; simpl; congruence.
                 ** rewrite J3. destruct sd; simpl; congruence.
@@ -268,8 +306,13 @@ Section Proofs.
                 ** destruct sd; simpl in *; lia.
                 ** lia.
                 ** lia.
-             ++ destruct IH as (J1 & J2 & J3 & J4 & J5 & J6).
+                ** rewrite Hcd, (expk_step (want sd) _ _ _ Hx Hv), Ev, <- Hc2. exact J8.
+                ** congruence.
+             ++ destruct IH as (J1 & J2 & J3 & J4 & J5 & J6 & J7 & J8).
+                assert (Hc2 : get_c sd s2 = S (get_d sd s)) by (destruct sd; simpl in *; congruence).
+                assert (Hoc2 : get_c (other sd) s2 = get_c (other sd) s) by (destruct sd; simpl in *; congruence).
                 split; [exact J1|]. repeat split; try congruence; try lia.
+                rewrite Hcd, (expk_step (want sd) _ _ _ Hx Hv), Ev, <- Hc2. exact J7.
         * (* selector stream exhausted *)
           destruct Htc as (Hge & En2 & Epl2 & Ea2 & Eb2 & Eel2 & Ed12 & Ed22 & Ec12 & Ec22 & Eo12 & Eo22 & Eps2).
           rewrite Hcsame in Hge.
@@ -278,12 +321,17 @@ Section Proofs.
              all: constructor; rewrite ?En2, ?Epl2, ?Ea2, ?Eb2, ?Eel2, ?Ed12, ?Ed22, ?Ec12, ?Ec22, ?Eo12, ?Eo22; try congruence; try lia.
              all: try (destruct callable; lia).
           -- destruct sd; simpl in *; lia.
+          -- apply expk_nil_cond. exact Hge.
+          -- destruct sd; simpl in *; congruence.
       + (* data exhausted *)
         destruct Hti as (Hd & En & Epl & Ea & Eb & Eel & Ed1 & Ed2 & Ec1 & Ec2 & Eo1 & Eo2 & Ecs).
         inv_fields HI.
         split; [|repeat split; try lia; try congruence].
         * constructor; rewrite ?En, ?Epl, ?Ea, ?Eb, ?Eel, ?Ed1, ?Ed2, ?Ec1, ?Ec2, ?Eo1, ?Eo2; auto.
         * destruct sd; simpl in *; lia.
+        * destruct sd; simpl in *; [destruct Hs1b|destruct Hs2b];
+            solve [apply expk_nil_data; lia | apply expk_nil_cond; lia].
+        * destruct sd; simpl; congruence.
   Qed.
 
 
@@ -294,10 +342,13 @@ Section Proofs.
         Inv s' /\ get_out sd s' = get_out sd s ++ [x] /\
         get_out (other sd) s' = get_out (other sd) s /\
         n s <= n s' /\ n s' <= Nat.max (n s) (get_d sd s') /\ b s <= b s' /\
-        get_d sd s < get_d sd s'
+        get_d sd s < get_d sd s' /\
+        expk (want sd) (get_c sd s) = (get_d sd s' - 1, x) :: expk (want sd) (get_c sd s') /\
+        get_c (other sd) s' = get_c (other sd) s
     | (None, s') =>
         Inv s' /\ out1 s' = out1 s /\ out2 s' = out2 s /\
-        Nat.min (length xs) (length cs) <= get_c sd s' /\ n s <= n s' /\ b s <= b s'
+        Nat.min (length xs) (length cs) <= get_c sd s' /\ n s <= n s' /\ b s <= b s' /\
+        expk (want sd) (get_c sd s) = [] /\ get_c (other sd) s' = get_c (other sd) s
     end.
   Proof.
     intros HI. unfold Iter.next. apply cnext_spec; [exact HI|].
